@@ -316,6 +316,48 @@ namespace
       return true;
     }
 
+    // cross-type clone: t<DT2,IT2>.clone(x<DT,IT>, mode); documented CloneMode semantics: Deep/Allocate share nothing
+    // in any type combination; Shallow/Weak/Layout share exactly the arrays whose element type is unchanged
+    bool op_xclone()
+    {
+      AnyC* x = pick([](const AnyC& a) { return source(a) && container(a) && !a.foreign; }); // the template assigns first: forbidden for views
+      if(!x) return false;
+      std::vector<const XClone*> cand;
+      for(auto& xc : reg().xclones) if(xc.from == x->key) cand.push_back(&xc);
+      if(cand.empty()) return false;
+      const XClone& xc = *cand[c.rng.below(cand.size())];
+      const int mode = int(c.rng.below(5));
+      const std::string op = std::string(kind_name(x->key.kind)) + ".xclone";
+      AnyC* t = nullptr;
+      if(c.rng.coin(0.4)) t = pick([&](const AnyC& a) { return &a != x && a.key == xc.to; });
+      if(!t && pool.size() >= MAXPOOL) return false;
+      if(t && !release_guard(*t, x)) return false;
+      auto pre = hashes();
+      const Arr ax = x->arrays();
+      std::set<int> may;
+      if(t) { begin(op, std::string(mode_name(mode)) + " of " + x->label() + " into " + t->label()); may.insert(t->uid); }
+      else { P n = reg().defaults[xc.to.id()](); t = n.get(); add(std::move(n)); begin(op, std::string(mode_name(mode)) + " of " + x->label() + " into new " + t->label()); }
+      if(!probe(op, *x, [&] { xc.fn(*x, *t, mode); })) return true;
+      xc.fn(*x, *t, mode);
+      Arr at = t->arrays();
+      if(mode == 4)
+      {
+        // Allocate leaves the index arrays unspecified: the harness fills the layout (converting the index type)
+        for(std::size_t i = 0; i < std::min(ax.ix.size(), at.ix.size()); ++i)
+          if(ax.ix[i] && at.ix[i] && ax.ixs[i] == at.ixs[i])
+            for(Index k = 0; k < ax.ixs[i]; ++k)
+            {
+              const std::uint64_t v = x->key.it ? static_cast<std::uint64_t*>(ax.ix[i])[k] : std::uint64_t(static_cast<std::uint32_t*>(ax.ix[i])[k]);
+              if(t->key.it) static_cast<std::uint64_t*>(at.ix[i])[k] = v; else static_cast<std::uint32_t*>(at.ix[i])[k] = std::uint32_t(v);
+            }
+      }
+      const int share_el = (mode == 0 && xc.to.dt == xc.from.dt) ? 1 : 0, share_ix = (mode <= 2 && xc.to.it == xc.from.it) ? 1 : 0;
+      if(share_el == 0 && share_ix == 0) { if(!check_disjoint(op, ax, at, std::string("cross-type clone mode ") + mode_name(mode))) return true; }
+      else if(!check_alias(op, ax, at, share_el, share_ix, std::string("cross-type clone mode ") + mode_name(mode))) return true;
+      monitors(op, pre, may);
+      return true;
+    }
+
     bool op_convert()
     {
       AnyC* x = pick([](const AnyC& a) { return source(a) && container(a) && !a.foreign; });
@@ -578,7 +620,8 @@ namespace
         const int w = int(c.rng.below(100));
         bool done;
         if(pool.empty() || w < 16) done = op_construct();
-        else if(w < 30) done = op_clone();
+        else if(w < 25) done = op_clone();
+        else if(w < 30) done = op_xclone();
         else if(w < 44) done = op_convert();
         else if(w < 50) done = op_move_construct();
         else if(w < 58) done = op_move_assign();
